@@ -137,23 +137,30 @@ def o_ids(spec, tr):
     return out
 
 
-def expected_final(spec):
-    """expected entries that must have been delivered by the end of the program, and those
-    that must never be (cancelable: cancelled traces, roots never finished, spans finished
-    after their root)"""
-    must, never = [], []
+def expected_final(spec, tr=None):
+    """expected entries that must have been delivered by the end of the program, those that must
+    never be (cancelable: cancelled traces, roots never finished, spans finished after the cycle
+    that delivered their trace), and those that may be (cancelable: finished after the root but
+    before the cycle that consumed the root's commit — then only in that cycle's report)"""
+    must, never, maybe = [], [], []
+    cyc = tr.cycles() if tr is not None else []
     for e in spec.expected:
-        tr = spec.traces.get(e["root"])
-        if tr is None:
+        t = spec.traces.get(e["root"])
+        if t is None:
             continue
         if not spec.cancelable:
             must.append(e)
+        elif t["cancelled"] or t["commit_pos"] is None:
+            never.append(e)
+        elif e["fin"] <= t["commit_pos"]:
+            must.append(e)
         else:
-            if tr["cancelled"] or tr["commit_pos"] is None or e["fin"] > tr["commit_pos"]:
-                never.append(e)
+            commit_cycle = next(((b, rp) for (b, rp) in cyc if b > t["commit_pos"]), None)
+            if commit_cycle is not None and e["fin"] < commit_cycle[0]:
+                maybe.append((e, commit_cycle[1]))
             else:
-                must.append(e)
-    return must, never
+                never.append(e)
+    return must, never, maybe
 
 
 def o_tree(spec, tr, strict_unknown=True):
@@ -191,7 +198,7 @@ def o_exactly_once(spec, tr):
     the report of the first cycle after it was due"""
     out = []
     ids = idmap(spec, tr)
-    must, never = expected_final(spec)
+    must, never, maybe = expected_final(spec, tr)
     cyc = tr.cycles()
 
     def key(name, trace, parent):
@@ -201,6 +208,10 @@ def o_exactly_once(spec, tr):
         got.setdefault(key(r["name"], r["trace"], r["parent"]), []).append(pos)
     want = {}
     for e in must:
+        # only what is already due: a cycle has begun after the span finished (default) / after the root's commit (cancelable)
+        due_after = e["fin"] if not spec.cancelable else spec.traces[e["root"]]["commit_pos"]
+        if not any(b > due_after for (b, rp) in cyc):
+            continue
         p = pref(e["parent"], ids)
         want.setdefault(key(e["name"], e["trace"], p), []).append(e)
     for k, es in want.items():
@@ -223,6 +234,11 @@ def o_exactly_once(spec, tr):
             if due is not None and not (due_after < pos <= due):
                 out.append("span %r (trace %x) was due by the report of the cycle at line %d (finished at line %d) but was delivered at line %d" % (k[0], k[1], due, due_after, pos))
     wantkeys = set((k[0], k[1]) for k in want)
+    for e, rp in maybe:
+        wantkeys.add((e["name"], e["trace"]))
+        for kk, v in got.items():
+            if kk[0] == e["name"] and kk[1] == e["trace"] and any(p != rp for p in v):
+                out.append("span %r of trace %x finished after its root; it may only be delivered together with the trace (line %d), was delivered at %s" % (e["name"], e["trace"], rp, v))
     for e in never:
         n = sum(len(v) for kk, v in got.items() if kk[0] == e["name"] and kk[1] == e["trace"])
         if n and (e["name"], e["trace"]) not in wantkeys:
